@@ -34,6 +34,7 @@ def bset(vals):
 
 def mc_cfg(geo, nstep=2, niter=2, adptfac=1, parA=(False,), parB=(False,), dump=(False, True), allowA=(False, True),
            sym=(True, False), withB=True, allorders=True, acc=True, sorted_listing=True, waitfirst=False, view=True,
+           restart_iters=(1,),
            invs=INVS_ALL, props=("PickleAppendOnly", "FactorFilesGrow")):
     lines = ["SPECIFICATION MCSpec", "CONSTANTS",
              f"  D = {geo.D}", f"  N = {geo.N}", f"  NDIV = {geo.NDIV}", f"  LMAX = {geo.LMAX}",
@@ -42,7 +43,8 @@ def mc_cfg(geo, nstep=2, niter=2, adptfac=1, parA=(False,), parB=(False,), dump=
              f"  WaitFirstN = {'TRUE' if waitfirst else 'FALSE'}", f"  NITER = {niter}", f"  AdptFac = {adptfac}",
              f"  ParA = {bset(parA)}", f"  ParB = {bset(parB)}", f"  DumpSet = {bset(dump)}", f"  AllowASet = {bset(allowA)}",
              f"  SymSet = {bset(sym)}", f"  WithB = {'TRUE' if withB else 'FALSE'}",
-             f"  AllOrders = {'TRUE' if allorders else 'FALSE'}"]
+             f"  AllOrders = {'TRUE' if allorders else 'FALSE'}",
+             "  RestartIters = {" + ", ".join(str(r) for r in restart_iters) + "}"]
     if view:
         lines.append("VIEW mcview")
     lines += [f"INVARIANT {i}" for i in invs]
@@ -146,9 +148,9 @@ def run_scripts(rep, batch, geo, scripts, name, adpt_fac=1, ncpu=2, origin="tlc-
 def run_random(rep, batch, geo, rng, n, niter, name, adpt_fac=1, ncpu=2, allow_par=True):
     wd = workdir("rgr_" + name)
     for i in range(n):
-        ops = RS.random_ops(rng, geo, niter, adpt_fac, allow_par=allow_par)
-        ev, errs, w = RS.execute_random(ops, geo, os.path.join(wd, f"r{i}"), rng, adpt_fac=adpt_fac, ncpu=ncpu)
-        info = dict(origin="random", ops=summarize_ops(ops), adpt_fac=adpt_fac, ncpu=ncpu, seed=seed(), index=i)
+        ev, errs, w, summary = RS.execute_random(geo, os.path.join(wd, f"r{i}"), rng, niter, adpt_fac=adpt_fac, ncpu=ncpu,
+                                                 allow_par=allow_par)
+        info = dict(origin="random", ops=summary, adpt_fac=adpt_fac, ncpu=ncpu, seed=seed(), index=i)
         batch.add(geo, ncpu, ev, info)
         rep.case((geo.key(), "random", i, seed(), name))
     shutil.rmtree(wd, ignore_errors=True)
@@ -169,6 +171,47 @@ def selftest_binding(rep, geo):
     if not v[0]["ok"] or v[1]["ok"] or v[2]["ok"]:
         raise MachineryError(f"binding self-test failed: {v}")
     rep.part("binding_selftest", good_accepted=True, corrupted_weight_rejected=v[1]["why"], dropped_event_rejected=v[2]["why"])
+
+
+def large_worlds(rep, rng, thorough):
+    """C10 where weights and weight changes are tiny (1e-3 .. 2e-7): deep refinement on a 32x32 grid; compact records
+    of every UpdateIntegral / Return validated by TLC (RunGridSummaryRec)"""
+    import random as _r
+    from .. import ftable
+    from ..rungrid_world import World
+    recs = []
+    plans = [("none", False, False), ("c4", True, False), ("none", False, True)]
+    if thorough:
+        plans += [("c4v", True, True), ("mx", True, False), ("none", False, False)]
+    wd = workdir("rg_large")
+    for j, (group, sym, dump) in enumerate(plans):
+        geo = Geometry(2, 32, 2, 6, group).use_registry(1500)
+        w = World(geo, os.path.join(wd, f"w{j}"))
+        sd = rng.randrange(1 << 30)
+
+        def pri(cell, lev, sd=sd):
+            r = _r.Random(hash((cell, lev, sd)))
+            return float(r.choice([1, 2, 3, 5, 7])) * 1.0e3 ** lev   # deep-first: children outrank everything older
+        w.calc.pri = pri
+        res, err = w.run(6, allow=dump, dump=dump, sym=sym, adpt_fac=2, summary=True)
+        if err:
+            rep.violation("large_world:exception", dict(group=group, sym=sym, dump=dump, error=err))
+        if w.problems:
+            rep.violation("large_world:projection", dict(group=group, problems=w.problems[:3]))
+        evs = [e for e in w.events if "nonintegral" not in e]
+        if not evs or min(e["minpos"] for e in evs) * 10 ** 6 > 3 * geo.WTOT:
+            raise MachineryError("large world did not reach weights below 3e-6")
+        for e in evs:
+            e["world"] = j
+            recs.append(e)
+        rep.case(("large", group, sym, dump, sd))
+    shutil.rmtree(wd, ignore_errors=True)
+    st, bad = ftable.validate_records("RunGridSummaryRec.tla", ftable.REC_CFG, recs, "c10_large")
+    rep.add_tlc("c10_large_records", st)
+    rep.add_traces(len(plans))
+    for i, clauses in bad.items():
+        rep.violation("large_world:" + clauses[0], dict(record=recs[i], failing_clauses=clauses))
+    rep.part("large_worlds", runs=len(plans), records=len(recs), smallest_weight=min(e["minpos"] for e in recs) / recs[0]["wtot"])
 
 
 GEOS = {
@@ -221,9 +264,10 @@ def check(pid, tier):
             run_scripts(rep, batch, geo, scripts, f"c10_{gname}_{fac}", adpt_fac=fac)
             run_random(rep, batch, geo, rng, (num // 2) * mult, 2, f"c10_{gname}_{fac}", adpt_fac=fac)
         batch.validate("c10")
+        large_worlds(rep, rng, thorough)
 
     elif pid == "C11":
-        exhaustive(rep, "c11_1d", mc_cfg(g1, niter=2, adptfac=1), expect_actions=RUN_ACTIONS + ["EndA", "StartB", "RestartB", "RefineB"])
+        exhaustive(rep, "c11_1d", mc_cfg(g1, niter=2, adptfac=1, restart_iters=(0, 1, 2)), expect_actions=RUN_ACTIONS + ["EndA", "StartB", "RestartB", "RefineB"])
         exhaustive(rep, "c11_1d_v0", mc_cfg(g1, niter=2, adptfac=1, sorted_listing=False), must_hold=False)
         exhaustive(rep, "c11_1d_fac2", mc_cfg(g1, niter=2, adptfac=2, allorders=False, allowA=(True,)),
                    expect_actions=RUN_ACTIONS + ["EndA", "StartB", "RestartB", "RefineB"])
@@ -236,7 +280,8 @@ def check(pid, tier):
         mult = 6 if thorough else 1
         for gname, fac, niter, num in plan:
             geo = GEOS[gname]
-            cfg = mc_cfg(geo, niter=niter, adptfac=fac, view=False, invs=["RestartEquivalence"], props=(), allorders=False)
+            cfg = mc_cfg(geo, niter=niter, adptfac=fac, view=False, invs=["RestartEquivalence"], props=(), allorders=False,
+                         restart_iters=(0, 1, 1, 2))
             st, scripts = simulate_scripts(geo, cfg, f"c11_{gname}_{fac}", num * mult, 60 * (niter + 1), seed() + 1)
             run_scripts(rep, batch, geo, scripts, f"c11_{gname}_{fac}", adpt_fac=fac)
             run_random(rep, batch, geo, rng, (num // 2) * mult, niter, f"c11_{gname}_{fac}", adpt_fac=fac, allow_par=False)
@@ -269,12 +314,12 @@ def check(pid, tier):
             # random schedules (both ray.wait answer policies), parallel forced
             wd = workdir(f"rgp_{j}")
             for i in range(num * mult):
-                ops = [dict(op="run", restart=False, mode=dict(par=True, dump=rng.random() < 0.3, allow=rng.random() < 0.5,
-                                                               sym=geo.group != "none"), nit=niter, refine=[],
-                            sched_fn=RS.random_schedule(rng, first_n=(i % 2 == 0)))]
-                ops[0]["mode"]["allow"] = ops[0]["mode"]["allow"] or ops[0]["mode"]["dump"]
-                ev, errs, w = RS.execute_random(ops, geo, os.path.join(wd, f"r{i}"), rng, ncpu=ncpu)
-                batch.add(geo, ncpu, ev, dict(origin="random-schedule", index=i, seed=seed(), ncpu=ncpu, ops=summarize_ops(ops)))
+                w = RS.World(geo, os.path.join(wd, f"r{i}"))
+                d = rng.random() < 0.3
+                m = dict(par=True, dump=d, allow=d or rng.random() < 0.5, sym=geo.group != "none")
+                res, err = w.run(niter, parallel=True, dump=m["dump"], allow=m["allow"], sym=m["sym"],
+                                 schedule=RS.random_schedule(rng, first_n=(i % 2 == 0)), ncpu=ncpu)
+                batch.add(geo, ncpu, w.events, dict(origin="random-schedule", index=i, seed=seed(), ncpu=ncpu, mode=m, nit=niter))
                 rep.case((geo.key(), "randsched", j, i, seed()))
             shutil.rmtree(wd, ignore_errors=True)
         batch.validate("c12")
